@@ -4,7 +4,7 @@ HARNESS = ["net/c11_test.go"]
 GO_TEST = "TestVerifC11"
 RUN_MODULE = "Run_C11"
 COQ_TARGETS = ["Corr/Run_C11.vo", "Proofs/MsgSenderProofs.vo"]
-N = {"quick": 400, "thorough": 12000}
+N = {"quick": 300, "thorough": 6000}
 GO_TIMEOUT = {"quick": 600, "thorough": 2400}
 RULE = ("online-generated driver schedules on the real messageSenderImpl over a fake host with in-memory gated streams, inside "
         "testing/synctest: 1-3 peers, 1-8 concurrent SendRequest/SendMessage calls, steps start / NewStream ok|fail / write ok|fail / "
